@@ -40,6 +40,9 @@ CLAIMS = {
  'C12': dict(
    text='Per-protocol clauses proved so far: ARP op != 1, ICMP type != 8, ICMPv6 type not in {128,135} or code != 0, TCP flags == SYN|ACK or RST or bare ACK => no reply (iff postconditions of the responders).',
    note='STUN class != Request => no STUN response is proved (stun::repl iff clause); PARTIAL: DNS QR=1, SMB reply flag, RPC reply and the reflection-chain bound are not yet under contract'),
+ 'C13': dict(
+   text='http_parse is proved memory-safe and terminating (lexicographic measure; the `i -= 1` after the method matcher is safe because every match row of the compiled HTTP automaton reports exactly one id -- ground fact) and EQUAL to the reference parser http_run (method automaton = run of the compiled table; request line and header automaton byte by byte, written from RFC 2616 5.1 with relaxed line ends); http::repl answers iff that parser, started from the flow state (TCP) or fresh (UDP), ends in CONTENT, so FAIL is absorbing and nothing is sent before the empty line. The response is proved to be P0 ++ date ++ P1 ++ dec(|content|) ++ P2 ++ content ++ P3 with the literal pieces taken from the format! template in the source; lemma_http_template evaluates on those pieces: starts "HTTP/1.1 401", P1 ends "Content-Length: ", P2 contains "\\nWWW-Authenticate: " and ends with the first empty line, P3 is empty (Content-Length == body bytes).',
+   note='the nine methods are recognised by the compiled HTTP_SMACK table (ground: wf, one id per row); grammar-level lemmas (which request lines reach CONTENT) are not yet proved, so "malformed request line => silence" is claimed only through FAIL-absorption of the reference automaton; chrono date string assumed LF-free and <= 64 bytes; Display of usize = dec(n); byte2str trusted'),
  'C15': dict(
    text='stun::repl is proved to answer iff the payload is at least 20 + declared length bytes long, class bits == Request and method == Binding (decoded per RFC 5389 figure 3, all twelve method bits), and then with exactly stun_response_spec: type 0x0101, length = 4 + attribute length, the request\'s 16 id bytes, one MAPPED-ADDRESS (family 1|2, observed source port and address). Attribute parsing (TryFrom, get_attributes loop) is proved total and in-bounds for every TLV layout; the change-port effect is proved equal to the TLV-walk predicate stun_change_port_req and applied exactly once (port + 1 mod 2^16).',
    note='to_be_bytes/byteorder::read_u128 inverse through the uninterpreted be_bytes16; u8->u8 try_into identity assumed (std reflexive From); identification of STUN payloads is the dispatcher\'s part (C10, with its known findings)'),
